@@ -9,7 +9,7 @@ calling `next` on the source, a test of the result, a body.  This pass rewrites 
 with the closures' bodies in place (same splicing as rules/expand.py), so that the same rules decide the same code.
 
 Handled: sources of any type (the `next` of the source is called); adaptors `map`, `filter`, `copied`, `cloned`; consumers
-`fold`, `for_each`, and the `for` loop itself over an adapted iterator.  Only pipelines that are new with
+`fold`, `for_each`, `find`, and the `for` loop itself over an adapted iterator.  Only pipelines that are new with
 respect to the reference tree are rewritten (a new closure in them, or more such calls in the function than the reference
 tree had: rules/known_closures.json); everything else stays as the compiler lowered it.
 """
@@ -20,7 +20,7 @@ from .mir import strip_generics
 ADAPTORS = ("map", "filter", "filter_map", "copied", "cloned")
 # `any` / `all` could be lowered the same way (the code below handles them) but are left as calls: a rule that meets one reads
 # the predicate closure directly, which says more than an early-exit loop does
-CONSUMERS = ("fold", "for_each")
+CONSUMERS = ("fold", "for_each", "find")
 
 
 def _short(callee):
@@ -306,7 +306,11 @@ def _header(bld, src_local, src_ty):
     h = bld.block()
     r = _new_local(body, "&mut " + src_ty)
     n = _new_local(body, OPTION + "<?>")
-    bld.stmt(h, _pl(r), {"k": "ref", "mut": True, "bk": "Mut { kind: Default }", "p": _pl(src_local, ty=src_ty)})
+    if src_ty.startswith("&"):
+        # consumers that take `&mut self` (find) were handed a reference to the iterator: `next` is called through it
+        bld.stmt(h, _pl(r), {"k": "use", "a": {"copy": _pl(src_local, ty=src_ty)}})
+    else:
+        bld.stmt(h, _pl(r), {"k": "ref", "mut": True, "bk": "Mut { kind: Default }", "p": _pl(src_local, ty=src_ty)})
     h2 = bld.block()
     nc = next_callee(src_ty)
     bld.blocks[h]["term"] = {"k": "call", "callee": nc, "decl": "std::iter::Iterator::next", "substs": [], "inst_substs": [], "resolved": True, "ikind": "Item",
@@ -348,6 +352,17 @@ def _lower_consumer(body, bodies, bi, kind, chain, src, fns):
         _r, after = bld.call(cur, f, env, [{"move": x}])
         bld.goto(after, h)
         bld.stmt(ex, dest, {"k": "use", "a": {"const": {"ty": "()", "disp": "()", "zst": True}}})
+        bld.goto(ex, cont)
+    elif kind == "find":
+        # the first element the predicate accepts (it looks at `&x`), or None when the source is exhausted
+        rr = _pl(_new_local(body))
+        bld.stmt(cur, rr, {"k": "ref", "mut": False, "bk": "Shared", "p": x})
+        r, after = bld.call(cur, f, env, [{"move": rr}])
+        hit = bld.block()
+        bld.stmt(hit, dest, _agg(OPTION, "Some", [{"move": x}]))
+        bld.goto(hit, cont)
+        bld.switch_bool(after, {"move": r}, h, hit)
+        bld.stmt(ex, dest, _agg(OPTION, "None", []))
         bld.goto(ex, cont)
     else:
         r, after = bld.call(cur, f, env, [{"move": x}])
